@@ -372,6 +372,7 @@ def _payload_spec(rng: Rng) -> str:
 def gen_world_case(rng: Rng, max_ops: int = 30, focus: Optional[str] = None) -> dict:
     focus = focus or rng.choice(["dns", "ntp", "shared-port", "stopped-owner", "mixed", "mixed"])
     ops: List[dict] = []
+    registered: List[str] = []
     sides = ["A", "B"]
     # set-up: servers, listeners, client configuration, a few registered names
     if focus in ("dns", "mixed", "shared-port", "stopped-owner"):
@@ -381,6 +382,7 @@ def gen_world_case(rng: Rng, max_ops: int = 30, focus: Optional[str] = None) -> 
         ops.append({"op": "cfg", "side": "A", "which": "dns", "target": "peer"})
         for _ in range(rng.range(1, 3)):
             ops.append({"op": "register", "side": "B", "name": rng.choice(NAMES), "ip": rng.choice(ADDRS)})
+            registered.append(ops[-1]["name"])
     if focus in ("ntp", "mixed", "shared-port", "stopped-owner"):
         ops.append(_install(rng, "B", "ntp-server", []))
         if focus == "shared-port" or rng.chance(1, 4):
@@ -394,7 +396,7 @@ def gen_world_case(rng: Rng, max_ops: int = 30, focus: Optional[str] = None) -> 
         ops.append(_install(rng, side, t, [port]))
         ops.append({"op": "node", "side": side, "nop": {"op": "sreq", "name": rng.choice([owner, t]), "r": rng.choice(["stop", "pause", "disable"])}})
     n = rng.range(6, max_ops)
-    w = {"dns": [30, 6, 14, 12, 14, 8, 6, 4, 6], "ntp": [6, 30, 14, 12, 14, 8, 6, 4, 6], "shared-port": [16, 16, 14, 8, 22, 10, 4, 4, 6],
+    w = {"dns": [40, 4, 12, 3, 14, 3, 3, 4, 6], "ntp": [4, 40, 12, 3, 14, 3, 3, 4, 6], "shared-port": [16, 16, 14, 8, 22, 10, 4, 4, 6],
          "stopped-owner": [12, 12, 18, 6, 26, 6, 6, 4, 10], "mixed": [14, 14, 14, 10, 18, 10, 6, 6, 8]}[focus]
     tot = sum(w)
     while len(ops) < n:
@@ -408,7 +410,8 @@ def gen_world_case(rng: Rng, max_ops: int = 30, focus: Optional[str] = None) -> 
         if j == 0:     # DNS client / server API
             r = rng.below(10)
             if r < 5:
-                ops.append({"op": "lookup", "side": rng.choice(["A", "A", "B"]), "name": rng.choice(NAMES)})
+                ops.append({"op": "lookup", "side": rng.choice(["A", "A", "A", "B"]),
+                            "name": rng.choice(registered) if registered and rng.chance(2, 3) else rng.choice(NAMES)})
             elif r < 7:
                 ops.append({"op": "register", "side": side, "name": rng.choice(NAMES), "ip": rng.choice(ADDRS)})
             elif r < 8:
@@ -491,3 +494,58 @@ def run_world_case(case: dict, guards: Dict[str, bool]) -> dict:
             oracle_hits.append((i, kind, detail, extra))
         w.oracle_hits.clear()
     return {"impl": impl, "lines": lines, "oracle": oracle_hits, "executed": executed}
+
+
+# --------------------------------------------------------------------------------------------------- connection bookkeeping
+CONN_IDS = ["c1", "c2", "c3", "c4", "c5"]
+CONN_TYPES = ["ftp-server", "database-service", "web-server", "terminal", "dns-server"]
+
+
+def gen_conn_case(rng: Rng, max_ops: int = 24) -> dict:
+    ops = []
+    for _ in range(rng.range(4, max_ops)):
+        if rng.chance(3, 5):
+            ops.append({"op": "add", "id": rng.choice(CONN_IDS)})
+        else:
+            ops.append({"op": "term", "id": rng.choice(CONN_IDS), "sd": rng.chance(2, 3)})
+    return {"type": rng.choice(CONN_TYPES), "max": rng.choice([0, 1, 2, 2, 3]),
+            "health": rng.choice(["GOOD", "GOOD", "COMPROMISED", "OVERWHELMED", "FIXING"]), "ops": ops}
+
+
+def run_conn_case(case: dict) -> dict:
+    """`IOSoftware.add_connection` / `terminate_connection` on a real instance with a small `max_sessions`"""
+    base.load()
+    from primaite.simulator.system.software import SoftwareHealthState
+    node = base.make_node("computer", {"power": "ON", "up": 0, "down": 0, "kind": "computer", "hostname": "conn_host"})
+    sm = node.software_manager
+    if case["type"] == "database-service":
+        pass  # needs its FTP client: already part of a computer's system software
+    cls = base.registries()[0][case["type"]]
+    if not any(type(o) is cls for o in sm.software.values()):
+        sm.install(cls)
+    obj = next(o for o in sm.software.values() if type(o) is cls)
+    obj.max_sessions = case["max"]
+    obj.health_state_actual = SoftwareHealthState[case["health"]]
+    sent = []
+    object.__setattr__(sm, "send_payload_to_session_manager", lambda *a, **k: (sent.append(k.get("payload")), True)[1])
+
+    def show():
+        return f"[{','.join(str(k) for k in obj._connections)}] {obj.health_state_actual.name}"
+    lines = [f"conn new {case['max']} {case['health']}"]
+    impl = [show()]
+    oracle = []
+    for i, op in enumerate(case["ops"]):
+        n0 = len(obj._connections)
+        if op["op"] == "add":
+            r = obj.add_connection(connection_id=op["id"])
+            lines.append(f"conn add {op['id']}")
+            # the property's oracle on the implementation: OVERWHELMED exactly when the request met a full table
+            if (obj.health_state_actual.name == "OVERWHELMED") != (n0 >= case["max"]):
+                oracle.append((i, "overwhelmed-iff-at-capacity", f"{n0} connections, max {case['max']}, health {obj.health_state_actual.name}"))
+        else:
+            r = obj.terminate_connection(connection_id=op["id"], send_disconnect=op["sd"])
+            lines.append(f"conn term {op['id']} {1 if op['sd'] else 0}")
+        if len(obj._connections) > max(case["max"], n0):
+            oracle.append((i, "more-connections-than-max-sessions", f"{len(obj._connections)} > {case['max']}"))
+        impl.append(f"ret {1 if r else 0} {show()}")
+    return {"impl": impl, "lines": lines, "oracle": oracle}
